@@ -11,7 +11,6 @@ import os
 import sys
 import traceback
 
-os.environ.setdefault('PYTHONHASHSEED', '0')
 
 
 def main(argv=None):
@@ -20,7 +19,7 @@ def main(argv=None):
     ap.add_argument('--tier', default=os.environ.get('VERIF_TIER', 'quick'))
     ap.add_argument('--replay')
     args = ap.parse_args(argv)
-    if os.environ.get('PYTHONHASHSEED') != '0' and not os.environ.get('VF_REEXEC'):
+    if sys.flags.hash_randomization and not os.environ.get('VF_REEXEC'):
         os.environ['PYTHONHASHSEED'] = '0'
         os.environ['VF_REEXEC'] = '1'
         os.execv(sys.executable, [sys.executable, '-m', 'vf.run'] + (argv or sys.argv[1:]))
